@@ -201,6 +201,8 @@ class UniverseInput(CellModifierInput):
 
     def _update_cell_values(self):
         if self.universe is not None:
-            self._tree["data"][0].is_negatable_identifier = True
+            # converting again would reset the formatting learned from the input
+            if not self._tree["data"][0].is_negatable_identifier:
+                self._tree["data"][0].is_negatable_identifier = True
             self._tree["data"][0].value = self.universe.number
             self._tree["data"][0].is_negative = self.not_truncated
